@@ -34,7 +34,7 @@ PLAN = {
     'C13': {'quick': [('MC_hist.tla', 'MC_hist.cfg')], 'thorough': [('MC_hist.tla', 'MC_hist.cfg'), ('MC_hist.tla', 'MC_hist_big.cfg')]},
     'C14': {'quick': [('MC_hist.tla', 'MC_hist.cfg')], 'thorough': [('MC_hist.tla', 'MC_hist.cfg'), ('MC_hist.tla', 'MC_hist_big.cfg')]},
     'C16': {'quick': [('MC_core.tla', 'MC_stop_s.cfg'), ('MC_stopt.tla', 'MC_stopt.cfg'), ('MC_core.tla', 'MC_live_stop.cfg')],
-            'thorough': [('MC_core.tla', 'MC_stop_s.cfg'), ('MC_core.tla', 'MC_stop.cfg'), ('MC_stopt.tla', 'MC_stopt.cfg'), ('MC_core.tla', 'MC_live_stop.cfg')]},
+            'thorough': [('MC_core.tla', 'MC_stop_s.cfg'), ('MC_core.tla', 'MC_stop.cfg'), ('MC_stopt.tla', 'MC_stopt.cfg'), ('MC_core.tla', 'MC_live_stop.cfg'), ('MC_stopt.tla', 'MC_live_stopt.cfg')]},
     'C18': {'quick': [('MC_one.tla', 'MC_expect_s.cfg')], 'thorough': [('MC_one.tla', 'MC_expect.cfg')]},
     'C17': {'quick': [('MC_wal.tla', 'MC_wal.cfg')], 'thorough': [('MC_wal.tla', 'MC_wal.cfg')]},
     'C15': {'quick': [('MC_core.tla', 'MC_idle.cfg')], 'thorough': [('MC_core.tla', 'MC_idle.cfg'), ('MC_core.tla', 'MC_idle_big.cfg')]},
